@@ -81,8 +81,11 @@ Proof.
   - intro H. inversion H; subst. auto.
   - (* release *)
     destruct (lookup f (holder s)) as [q|] eqn:L; [|discriminate].
-    destruct (Z.eqb q p && negb (has_key f (running s))) eqn:E; [|discriminate].
-    apply andb_true_iff in E as [E1 E2]. apply negb_true_iff in E2.
+    destruct (Z.eqb q p) eqn:E1.
+    2:{ (* unlock by a force-owner: the lock table is untouched *)
+        destruct (mem p f (forced s)); [|discriminate]. intro H. inversion H; subst; cbn. auto. }
+    destruct (negb (has_key f (running s))) eqn:E2; [|discriminate].
+    apply negb_true_iff in E2.
     intro H. inversion H; subst; cbn. split; [exact Hr|]. split.
     + rewrite remove_key_fst. now apply NoDup_filter.
     + intros f0 p0 Hin. assert (f0 <> f).
@@ -151,11 +154,15 @@ Proof.
 Qed.
 
 (* the result of an execution is recorded before the lock can be released:
-   a release event is accepted only when no script for that file id is running *)
+   a release event of the lock's holder is accepted only when no script for
+   that file id is running; any other accepted release (the unlock call of a
+   redo-unlocked child that merely force-owns the lock) leaves the lock held *)
 Theorem release_after_record p f s s' :
-  lapply (LRelease p f) s = Some s' -> has_key f (running s) = false.
+  lapply (LRelease p f) s = Some s' ->
+  has_key f (running s) = false \/ (holder s' = holder s /\ running s' = running s).
 Proof.
   cbn [lapply]. destruct (lookup f (holder s)) as [q|]; [|discriminate].
-  destruct (Z.eqb q p && negb (has_key f (running s))) eqn:E; [|discriminate].
-  apply andb_true_iff in E as [_ E]. now apply negb_true_iff in E.
+  destruct (Z.eqb q p).
+  - destruct (negb (has_key f (running s))) eqn:E; [|discriminate]. intros _. left. now apply negb_true_iff in E.
+  - destruct (mem p f (forced s)); [|discriminate]. intro H. inversion H; subst. right. split; reflexivity.
 Qed.
